@@ -523,7 +523,7 @@ def exec_images(rng, name, count):
             out.append(rt(0, xoff, yoff, tz))
             stats[k] = stats.get(k, 0) + 1
         elif api == "AT":
-            m = rng.choice([0, 1, 2, 3])
+            m = shape_count(rng, [0, 1, 2, 3])
             tzs = [pick_shape(n, W, H, rng, xoff, yoff)[1] for _i in range(m)]
             out.append("AT 0 %d %d %d %s" % (xoff, yoff, m, " ".join(str(v) for tz in tzs for v in tz)))
             stats["add_trapezoids"] = stats.get("add_trapezoids", 0) + 1
@@ -546,7 +546,7 @@ def exec_images(rng, name, count):
             out.append("AP 0 %d %d %d %s" % (xoff, yoff, m, " ".join(str(v) for t in ts for v in t)))
             stats["add_traps"] = stats.get("add_traps", 0) + 1
         else:
-            m = rng.choice([1, 1, 2])
+            m = shape_count(rng, [1, 1, 2])
             tris = [gen_triangle(n, W, H, rng, xoff, yoff) for _i in range(m)]
             out.append("AG 0 %d %d %d %s" % (xoff, yoff, m, " ".join(str(v) for t in tris for v in t)))
             stats["add_triangles"] = stats.get("add_triangles", 0) + 1
@@ -698,7 +698,7 @@ def exec_meta(rng, name, count):
                     img_cmd(2, n, W, H), rt(2, xo + dx, yo + dy, far_tz), "SH 0 2 %d %d" % (dx, dy)]
             bump("offset")
         else:
-            m = rng.choice([1, 2])
+            m = shape_count(rng, [1, 2])
             tris = [gen_triangle(n, W, H, rng, xoff, yoff) for _i in range(m)]
             traps = [t for tr in tris for t in tri_to_traps(tr)]
             px = rand_pixels(n, W, H, rng)
@@ -718,6 +718,12 @@ def argb(rng):
     c = [rng.randint(0, a) for _ in range(3)]
     return (a << 24) | (c[0] << 16) | (c[1] << 8) | c[2]
 
+
+
+def shape_count(rng, small):
+    """number of shapes handed to ONE call: mostly the small counts, sometimes a list that crosses the sizes of the
+       fixed arrays / batches an entry point may work through (16 / 17 / 18, 33, 40)"""
+    return rng.choice([16, 17, 18, 33, 40]) if rng.random() < 0.12 else rng.choice(small)
 
 def exec_comp(rng, name, count, ops, start):
     """start: running index, so that the operators are cycled through across executions"""
@@ -761,7 +767,7 @@ def exec_comp(rng, name, count, ops, start):
             if rng.random() < 0.3:
                 src += "\nP 2 %d" % rng.choice([0, 1, 2, 3])
         tri = rng.random() < 0.3
-        m = rng.choice([1, 1, 2, 3])
+        m = shape_count(rng, [1, 1, 2, 3])
         if tri:
             shapes = [gen_triangle(mfmt, W, H, rng, xd, yd) for _i in range(m)]
             traps = [t for tr in shapes for t in tri_to_traps(tr)]
